@@ -253,15 +253,17 @@ def h_identity():
     prove("same_affine", And(B_.a == A.a, B_.b == A.b, B_.c == A.c, B_.d == A.d, B_.e == A.e, B_.f == A.f))
 
 
-def h_single_pixel_axis(which, with_crs_coord):
-    """an axis of length 1: the GeoTransform fallback resolution is used; without it no GeoBox
-    (rather than a wrong one)"""
+def h_single_pixel_axis(which, with_crs_coord, ok=1):
+    """an axis of length 1: the GeoTransform fallback resolution is used for that axis only (the
+    other axis, possibly strided or reversed by ok, keeps the resolution its labels show);
+    without the fallback no GeoBox (rather than a wrong one)"""
     import odc.geo._xr_interop as xr
 
     g, ny, nx = mk_gbox("st")
     yn, xn = (1, 3) if which == "y" else (2, 1)
-    ysl = (slice_params("y", yn, 1, ny), yn, 1)
-    xsl = (slice_params("x", xn, 1, nx), xn, 1)
+    yk, xk = (1, ok) if which == "y" else (ok, 1)
+    ysl = (slice_params("y", yn, yk, ny), yn, yk)
+    xsl = (slice_params("x", xn, xk, nx), xn, xk)
     src = build_src(g, ny, nx, ysl, xsl, drop_crs_coord=not with_crs_coord)
     if symx.concrete_mode():
         gb = src.odc.geobox
@@ -298,21 +300,114 @@ def h_gcp_pixel_labels(yn, yk, xn, xk):
     """pixel-space labels of a GCP GeoBox: the crop/stride affine is recovered from the labels"""
     import odc.geo._xr_interop as xr
 
-    if symx.concrete_mode():
-        return
     ny, nx = Int("ny", 1), Int("nx", 1)
     ysl = (slice_params("y", yn, yk, ny), yn, yk)
     xsl = (slice_params("x", xn, xk, nx), xn, xk)
+    if symx.concrete_mode():
+        # replay through the public route: a real GCP GeoBox wrapped, sliced and read back
+        import numpy as np
+
+        from odc.geo.gcp import GCPGeoBox, GCPMapping
+        from odc.geo.xr import xr_zeros
+
+        pix = np.asarray([[0.0, 0.0], [float(nx), 0.0], [float(nx), float(ny)], [0.0, float(ny)], [0.3 * nx, 0.6 * ny]])
+        wld = np.stack([pix[:, 0] * 3 - pix[:, 1] * 0.5 + 7, pix[:, 0] * 0.25 + pix[:, 1] * -2 + 11], axis=1)
+        g = GCPGeoBox((ny, nx), GCPMapping(pix, wld, "epsg:3857"))
+        xx = xr_zeros(g)
+        (ys, _, _), (xs, _, _) = ysl, xsl
+        ye, xe = ys + yn * yk, xs + xn * xk
+        yy = xx[slice(ys, ye if ye >= 0 else None, yk), slice(xs, xe if xe >= 0 else None, xk)]
+        T = yy.odc.geobox._affine
+        j, i = Int("probe_row", 0, yn - 1), Int("probe_col", 0, xn - 1)
+        px, py = T * (i + 0.5, j + 0.5)
+        prove("crop_affine:x", abs(px - (xs + i * xk + 0.5)) < 1e-6)
+        prove("crop_affine:y", abs(py - (ys + j * yk + 0.5)) < 1e-6)
+        return
     cy = xr._mk_pixel_coord("y", ny, None)
     cx = xr._mk_pixel_coord("x", nx, None)
     src = DA(None, coords={"y": slice_labels(cy, *ysl), "x": slice_labels(cx, *xsl)}, dims=("y", "x"))
     T = xr._extract_transform(src, ("y", "x"), None, True)
-    prove("transform_recovered", T is not None)
+    if T is None:
+        # what _locate_geo_info then builds: GCPGeoBox(shape, gcp, None), i.e. the identity
+        from affine import Affine
+
+        T = Affine.identity()
     j, i = Int("probe_row", 0, yn - 1), Int("probe_col", 0, xn - 1)
     h = F(1, 2)
     px, py = T * (i + h, j + h)
     prove("crop_affine:x", px == xsl[0] + i * xk + h)
     prove("crop_affine:y", py == ysl[0] + j * yk + h)
+
+
+class _Pt:
+    def __init__(self, x, y):
+        self.coords = [(x, y)]
+
+
+class _MPts:
+    def __init__(self, pts):
+        self.geoms = [_Pt(x, y) for x, y in pts]
+
+
+class _PtsMapping:
+    crs = None
+
+    def __init__(self, pix, wld):
+        self._p, self._w = pix, wld
+
+    def points(self):
+        return _MPts(self._p), _MPts(self._w)
+
+
+class _GCP:
+    def __init__(self, row=None, col=None, x=None, y=None, z=None, id=None, info=None):
+        self.row, self.col, self.x, self.y, self.id = row, col, x, y, id
+
+
+def h_gcp_write(kind):
+    """the control points written for a GCP GeoBox carry the pixel coordinates of THIS GeoBox: its
+    internal (crop / pad / zoom) affine applied to a written (col, row) gives back the control
+    point's own pixel position, and the world side is unchanged"""
+    import sys
+    import types
+
+    import odc.geo.gcp as gcp
+    from affine import Affine
+
+    n = 3
+    pix = [(Real(f"px{k}"), Real(f"py{k}")) for k in range(n)]
+    wld = [(Real(f"wx{k}"), Real(f"wy{k}")) for k in range(n)]
+    tx, ty = Real("tx"), Real("ty")
+    if kind == "crop":
+        A = Affine.translation(tx, ty)
+    elif kind == "zoom":
+        sx, sy = Real("sx"), Real("sy")
+        assume(And(sx > 0, sy > 0))
+        A = Affine.translation(tx, ty) * Affine.scale(sx, sy)
+    else:
+        a, b, d, e = Real("a"), Real("b"), Real("d"), Real("e")
+        assume(a * e - b * d != 0)
+        A = Affine(a, b, tx, d, e, ty)
+    g = gcp.GCPGeoBox((Int("ny", 1), Int("nx", 1)), _PtsMapping(pix, wld), A)
+    stub = types.ModuleType("rasterio.control")
+    stub.GroundControlPoint = _GCP
+    saved = sys.modules.get("rasterio.control")
+    sys.modules["rasterio.control"] = stub
+    try:
+        out = g.gcps()
+    finally:
+        if saved is None:
+            sys.modules.pop("rasterio.control", None)
+        else:
+            sys.modules["rasterio.control"] = saved
+    prove("one_gcp_per_control_point", len(out) == n)
+    tol = F(1, 10**6) if symx.concrete_mode() else 0
+    for k, q in enumerate(out):
+        bx, by = A * (q.col, q.row)
+        prove(f"gcp{k}_pixel_side", And(abs(ex(bx) - ex(pix[k][0])) <= tol * (1 + abs(ex(pix[k][0]))), abs(ex(by) - ex(pix[k][1])) <= tol * (1 + abs(ex(pix[k][1])))))
+        prove(f"gcp{k}_world_side", And(ex(q.x) == ex(wld[k][0]), ex(q.y) == ex(wld[k][1])))
+        prove(f"gcp{k}_id", q.id == k)
+
 
 
 SL_Q = [dict(yn=3, yk=1, xn=4, xk=1), dict(yn=2, yk=2, xn=5, xk=-1), dict(yn=7, yk=-3, xn=2, xk=2)]
@@ -326,12 +421,16 @@ OBLIGATIONS = [
        bounds="GeoBox affine (axis-aligned) and shape symbolic; slice origin symbolic; (length, stride) per axis from a grid incl. negative strides",
        stubs=("passive xarray container", "LinSeq labels", "float tokens through the GeoTransform string"), setup=setup, timeout_ms=20000),
     Ob("X1_identity", h_identity, fixed(), descr="no slicing: the recovered GeoBox has the original shape, CRS and affine", functions=("odc.geo._xr_interop._locate_geo_info",), stubs=("passive xarray container", "LinSeq"), setup=setup),
-    Ob("X2_single_pixel_axis", h_single_pixel_axis, fixed(*[dict(which=w, with_crs_coord=c) for w in ("y", "x") for c in (True, False)]),
+    Ob("X2_single_pixel_axis", h_single_pixel_axis, fixed(*([dict(which=w, with_crs_coord=c) for w in ("y", "x") for c in (True, False)] + [dict(which=w, with_crs_coord=True, ok=k) for w in ("y", "x") for k in (2, -1, -3)])),
        descr="an axis of length 1: the GeoTransform fallback resolution is used; without the CRS coordinate no GeoBox rather than a wrong one",
        functions=("odc.geo._xr_interop._extract_transform", "odc.geo._xr_interop._extract_geo_transform", "odc.geo.math.affine_from_axis"), stubs=("passive xarray container", "float tokens"), setup=setup, timeout_ms=20000),
     Ob("X3_rotated", h_rotated, tiered(SL_Q[:2] + [dict(yn=1, yk=1, xn=3, xk=1, kind="rotgrid1"), dict(yn=4, yk=1, xn=1, xk=1, kind="rotgrid2")],
                                        SL_T[:5] + [dict(yn=1, yk=1, xn=3, xk=1, kind="rotgrid1"), dict(yn=4, yk=1, xn=1, xk=1, kind="rotgrid2"), dict(yn=1, yk=1, xn=1, xk=1, kind="rotgrid1"), dict(yn=1, yk=1, xn=5, xk=-2, kind="rotgrid2")]), descr="rotated/sheared GeoBox: pixel-space labels + encoded transform compose to original o slice",
        functions=("odc.geo._xr_interop._mk_pixel_coord", "odc.geo._xr_interop._extract_transform"), bounds="fully symbolic affine with shear/rotation; slices as X1 plus single-row / single-column results", stubs=("passive xarray container", "LinSeq"), setup=setup, timeout_ms=60000, fresh_only=True),
-    Ob("X4_gcp_pixel_labels", h_gcp_pixel_labels, tiered(SL_Q[:2], SL_T[:5]), descr="GCP GeoBox pixel labels: the crop/stride affine is recovered from the labels", functions=("odc.geo._xr_interop._mk_pixel_coord", "odc.geo._xr_interop._extract_transform"),
+    Ob("X5_gcp_write", h_gcp_write, fixed(dict(kind="crop"), dict(kind="zoom"), dict(kind="general")),
+       descr="GCPGeoBox.gcps(): written (col,row) are in this GeoBox's own pixel frame (internal affine applied gives back the control point's pixel position); world side unchanged; ids in order",
+       functions=("odc.geo.gcp.GCPGeoBox.gcps",), bounds="3 symbolic control points; internal affine: translation / translation x scale / any invertible affine",
+       stubs=("rasterio GroundControlPoint record", "control-point multipoints as vertex lists"), setup=setup, fresh_only=True),
+    Ob("X4_gcp_pixel_labels", h_gcp_pixel_labels, tiered(SL_Q[:2] + [dict(yn=1, yk=1, xn=3, xk=1), dict(yn=4, yk=2, xn=1, xk=1), dict(yn=1, yk=1, xn=1, xk=1)], SL_T[:5] + [dict(yn=1, yk=1, xn=3, xk=1), dict(yn=4, yk=2, xn=1, xk=1), dict(yn=1, yk=1, xn=1, xk=1), dict(yn=1, yk=1, xn=5, xk=-2)]), descr="GCP GeoBox pixel labels: the crop/stride affine is recovered from the labels", functions=("odc.geo._xr_interop._mk_pixel_coord", "odc.geo._xr_interop._extract_transform"),
        stubs=("passive xarray container", "LinSeq"), setup=setup),
 ]
